@@ -22,8 +22,8 @@ HERE = os.path.dirname(os.path.dirname(os.path.abspath(__file__)))
 
 
 class Case(object):
-  def __init__(self, name, fn, **kw):
-    self.name, self.fn, self.kw = name, fn, kw
+  def __init__(self, case_name_, fn_, **kw):
+    self.name, self.fn, self.kw = case_name_, fn_, kw
 
 
 def new_result(name):
